@@ -5,11 +5,29 @@ _TECH = ("Kani/CBMC symbolic execution of the real RTPS objects (RtpsStatefulWri
          "RtpsStatefulReader, RtpsWriterProxy, CacheChange fragmenting, RtpsMessageRead::try_from, MessageReceiver): "
          "one real step from a symbolic pre-state, or one writer->datagrams->reader round")
 
+# Per-loop unwinding bounds for two library loops whose trip count is a byte count, not a protocol bound:
+#  * memcmp.0 - CBMC's builtin memcmp ([u8;12] GuidPrefix / [u8;16] key hash equality): 16 bytes + exit test,
+#  * Vec<u8>::extend_with - Vec::resize in rtps_messages::overall_structure::Cursor::write_all (largest chunk:
+#    4-byte submessage header gap + 12-byte prefix of INFO_DST = 16 bytes).
+# The harness attribute #[kani::unwind(n)] bounds every other loop by the protocol-level sizes stated in @bounds.
+# Unwinding assertions stay on for all loops: if a label no longer matches, the run is reported as inconclusive.
+_EXTEND_WITH = "_RNvMs4_NtCs6xMQmN1AWUs_5alloc3vecINtB5_3VechE11extend_withCs36Lg0Iv5OGD_8dust_dds.0"
+_POW = "_RNvMs7_NtCs8xvirJzNMvV_4core3numy15overflowing_powCs36Lg0Iv5OGD_8dust_dds"
+# Loops of RtpsReaderProxy::write_message_reliable<Sent, FixedClock> (dds/src/rtps/stateful_writer.rs): .0 = the
+# per-fragment loop (line 461), .1 = `while let Some(next_unsent_change)` (line 425), .2 = `while let
+# Some(next_requested_change)` (line 575). The writer history lives in a Vec heap buffer, so their trip counts are
+# opaque to symbolic execution and each unwinding multiplies the dozen datagram construction sites of that function;
+# they are bounded by the protocol-level sizes of the harnesses (no fragmented change in the writer-repair/durability
+# harnesses, <= 2 unsent changes, <= 3 requested changes). Unwinding assertions stay on.
+_WMR = ("_RINvMs_NtNtCs36Lg0Iv5OGD_8dust_dds4rtps15stateful_writerNtNtB7_12reader_proxy15RtpsReaderProxy22write_message_reliable"
+        "NtNtNtB9_26s2e_systems_dust_dds_verif12support_rtps4SentNtB1U_10FixedClockEB9_")
+_CBMC = ["--unwindset", "memcmp.0:17,%s:18,%s.0:7,%s.1:7,%s.0:1,%s.1:3,%s.2:4" % (_EXTEND_WITH, _POW, _POW, _WMR, _WMR, _WMR)]
+
 prop("C01", level="other", explanation="placeholder", bounds="", outside="", level_text="", level_note="",
-     technique=_TECH, assumptions=[])
+     technique=_TECH, assumptions=[], cbmc_args=_CBMC)
 prop("C02", level="other", explanation="placeholder", bounds="", outside="", level_text="", level_note="",
-     technique=_TECH, assumptions=[])
+     technique=_TECH, assumptions=[], cbmc_args=_CBMC)
 prop("C04", level="other", explanation="placeholder", bounds="", outside="", level_text="", level_note="",
-     technique=_TECH, assumptions=[])
+     technique=_TECH, assumptions=[], cbmc_args=_CBMC)
 prop("C05", level="other", explanation="placeholder", bounds="", outside="", level_text="", level_note="",
-     technique=_TECH, assumptions=[])
+     technique=_TECH, assumptions=[], cbmc_args=_CBMC)
